@@ -79,6 +79,16 @@ func (p SetPattern) Bind(ctx context.Context, local Scope, value Value) (context
 					return ctx, EmptyScope, fmt.Errorf("item %s is not included in set %s", v, value)
 				}
 				set = set.Without(v.(Value))
+			} else {
+				// Any other parenthesised expression: its value must be an item of the set.
+				v, err := t.exprs[0].Eval(ctx, local)
+				if err != nil {
+					return ctx, EmptyScope, err
+				}
+				if !set.Has(v) {
+					return ctx, EmptyScope, fmt.Errorf("item %s is not included in set %s", v, value)
+				}
+				set = set.Without(v)
 			}
 		default:
 			if len(p.patterns) == 1 {
